@@ -4,7 +4,7 @@ META = dict(
     engine="E-CHAIN",
     technique="Lean 4 proof (decision logic of the gov handlers stated outright: any state change implies signer = ACL owner of the key / DAO owner; exact DAO transfer and burn; over-balance and other-signer no-ops; supply invariant carried through) + signed gov transactions through the real DeliverTx, judged by the executable spec on the implementation's own before/after dumps and compared with the model",
     level_text="Kernel-checked for all states, keys, values, signers and amounts: a MsgChangeParam or MsgUpgrade that changes anything (a parameter, the ACL, the DAO owner, a balance) was signed by the address the ACL names for that key — a key without entry is unchangeable; a DAO transfer/burn that changes anything was signed by the DAO owner; a successful transfer moves exactly the amount from the DAO account to the recipient and nothing else, a successful burn lowers DAO balance and supply by exactly the amount; amounts beyond the DAO balance and every other signer leave the whole state unchanged; the pos/MaxValidators height guard; as found: an owner's undecodable value is accepted and ignored. Tied to /repo every run: the key × signer × value matrix and DAO amounts around the balance run as signed transactions through the real app (genesis ACL spread over three owners; ACL and DAO-owner hand-overs included), with params (raw store values), ACL, DAO owner, all balances and the supply dumped after every DeliverTx.",
-    level_note="Trusted: Lean kernel; axioms propext, Classical.choice, Quot.sound; Go harness and driver parser. 'Signer' is the authenticated FromAddress (C14). Parameter values are opaque in the model: whether a value decodes into the registered type is an input supplied by the generator (syntax errors / type mismatches vs well-typed values), the stored bytes are compared by digest. The merged value of an accepted MsgUpgrade is C37's subject (taken from the implementation). The MaxValidators height guard (block >= 40000 before the validator split) is proved on the model but not reachable in the harness. A key whose subspace does not exist makes ModifyParam call os.Exit — reachable only by the key's ACL owner after an ACL change adding such a key; not exercised.",
+    level_note="Trusted: Lean kernel; axioms propext, Classical.choice, Quot.sound; Go harness and driver parser. 'Signer' is the authenticated FromAddress (C14). Parameter values are opaque in the model: whether a value decodes into the registered type is an input supplied by the generator (syntax errors / type mismatches vs well-typed values), the stored bytes are compared by digest. The merged value of an accepted MsgUpgrade is C37's subject (taken from the implementation). The MaxValidators height guard (block >= 40000 before the validator split) is exercised at keeper level (real handler, ctx.WithBlockHeight) under temporarily installed legacy upgrade globals, not through blocks. A key whose subspace does not exist makes ModifyParam call os.Exit — reachable only by the key's ACL owner after an ACL change adding such a key; not exercised.",
 )
 
 DRIVER = "Driver/C36.lean"
@@ -12,7 +12,10 @@ DRIVER = "Driver/C36.lean"
 
 def run(ctx):
     ctx.lean_proofs("Props.C36")
-    ctx.rule("c36: blocks of 1-3 signed gov txs on the real app; genesis ACL spreads the 35 keys over 3 owners, DAO owner = owner 2; "
+    ctx.rule("c36 heights: the real gov handler called with ctx.WithBlockHeight(h), h in {2, 39999, 40000, 40001, 45352, 45353, 45354, 100000}, on the real "
+             "app's store: every ACL key (1/3 from the special-cased ones: pos/MaxValidators, gov/acl, gov/upgrade, gov/daoOwner, RTTM and its per-chain map) x signer "
+             "{owner 2/5, other owners, funded accounts, validator, stranger} x value {changed, same, ACL hand-over, DAO owner, undecodable}; half of the calls at h >= 30024 "
+             "run under the upgrade globals of a chain without stored version upgrade (validator split only from 45353: the MaxValidators freeze is live) | c36: blocks of 1-3 signed gov txs on the real app; genesis ACL spreads the 35 keys over 3 owners, DAO owner = owner 2; "
              "signers {the key's owner, the two other owners, 2 funded accounts, a validator, a key without account}; MsgChangeParam over "
              "every ACL key (+ unknown, malformed, empty, near-miss and wrong-case keys) with values {well-typed changed value (numeric ±1, "
              "bool flip), same value, new ACL (owner hand-over, gov/acl|daoOwner|upgrade hand-over, entries for unregistered/malformed keys), "
@@ -20,6 +23,7 @@ def run(ctx):
              "bal, bal+1, 2·bal, MaxInt64, −1, −bal, random, 0} to accounts, new addresses, the DAO and fee-collector accounts; feature-only "
              "MsgUpgrade by owner / others; non-trivial = code 0")
     ctx.assume("the authenticated signer of a gov message is its FromAddress/Address field (C14)")
+    ctx.stream("heights", "c36", DRIVER, n=6000 if ctx.thorough else 500, args=["-mode", "heights"])
     ctx.stream("gov", "c36", DRIVER, n=15000 if ctx.thorough else 1200)
     if ctx.thorough:
         for s in range(3):
